@@ -274,6 +274,52 @@ theorem delegation_not_wider (w : World) (sp : SpaceRow) (fuel : Nat) (d : Deleg
   · left
     simpa using hown
 
+/-- Stated per candidate: every action a direct Delegation carries is a registered permission listed by the
+row and is held by ONE delegable candidate of the delegator — resolved now — that ALSO contains the Delegation's
+scope, conditions and constraints (or the delegator owns the Space). The action and the bounds are never
+supplied by two different authorities. -/
+theorem delegation_not_wider_per_candidate (w : World) (sp : SpaceRow) (fuel : Nat) (d : DelegationRow) (c : Candidate)
+    (hp : d.parent = "") (h : resolveDelegation w sp (fuel + 1) d = .ok (some c)) :
+    ∃ p held, w.findPrincipal d.delegator = some p ∧
+      candidatesOf w sp (resolveDelegation w sp fuel) d.delegator (p.status = "active") = .ok held ∧
+      conferDirect false { isOwner := decide (p.status = "active") && isOwnerOf sp d.delegator, candidates := held } d = some c ∧
+      ∀ x ∈ c.actions, x ∈ d.actions ∧ x ∈ permissionNames ∧
+        ((p.status = "active" ∧ isOwnerOf sp d.delegator = true) ∨
+         ∃ pc ∈ held, pc.delegationAllowed = true ∧ x ∈ pc.actions ∧ pc.scope.contains d.scope = true ∧
+           pc.conditions.contains d.conditions = true ∧ pc.constraints.contains d.constraints = true) := by
+  obtain ⟨p, held, hfp, hheld, rfl, hne⟩ := resolveDelegation_direct w sp fuel d c hp h
+  refine ⟨p, held, hfp, hheld, ?_, ?_⟩
+  · simp [conferDirect, hne]
+  · intro x hx
+    simp only [delegatedCandidate] at hx
+    obtain ⟨hxd, hconf⟩ := List.mem_filter.mp hx
+    simp only [conferrable, Bool.and_eq_true, Bool.or_eq_true, List.any_eq_true] at hconf
+    refine ⟨hxd, by simpa using hconf.1, ?_⟩
+    rcases hconf.2 with ⟨pc, hpc, hall⟩ | hown
+    · right
+      obtain ⟨⟨⟨⟨hda, hpa⟩, hsc⟩, hco⟩, hcs⟩ := hall
+      exact ⟨pc, hpc, hda, by simpa using hpa, hsc, hco, hcs⟩
+    · left
+      simpa using hown
+
+/-- The hoisted form — "some delegable authority holds the action" and "some delegable authority contains the
+bounds" asked separately — is wider: with G1 = `read` up to `public` and G2 = `search` unrestricted, a Delegation
+of unbounded `read` resolves to a candidate that reads a `secret` Concept, which no authority of the
+(non-owner) delegator reaches. The generated fact `gen_conferral_tests_one_candidate` pins that the code tests
+all of it on one candidate; corpus/C19/a7 replays this configuration on the real code. -/
+theorem conferral_hoisted_counterexample :
+    ∃ (pv : ParentView) (d : DelegationRow) (c : Candidate) (res : Resource) (a : Auth),
+      conferDirect true pv d = some c ∧ candidateMatches c "read" res a 2050 = true ∧ pv.isOwner = false ∧
+      (∀ pc ∈ pv.candidates, candidateMatches pc "read" res a 2050 = false) ∧
+      conferDirect false pv d = none :=
+  ⟨{ isOwner := false,
+     candidates := [{ id := .grant 1, actions := ["read"], constraints := { maxClassification := "public" }, delegationAllowed := true },
+                    { id := .grant 2, actions := ["search"], delegationAllowed := true }] },
+   { rowId := 1, spaceId := "kip:space:default", delegator := "lead", delegate := "bot", actions := ["read"] },
+   delegatedCandidate { rowId := 1, spaceId := "kip:space:default", delegator := "lead", delegate := "bot", actions := ["read"] } ["read"],
+   { kind := "concept", classification := "secret", elementId := "C-1" }, { principalId := "bot", authStrength := "standard" },
+   by decide, by decide, rfl, by decide, by decide⟩
+
 /-- A re-delegation: the linked parent Delegation is live, ends at this delegator, permits re-delegation,
 still resolves, and matches every request the child matches. -/
 theorem redelegation_not_wider (w : World) (sp : SpaceRow) (fuel : Nat) (d : DelegationRow) (c : Candidate)
